@@ -51,6 +51,10 @@ pub struct Case {
     pub level: u8, // 0 = CTAP2, 1 = client
     /// client level only: 0 absent, 1 required, 2 preferred, 3 discouraged
     pub uvreq: u8,
+    /// CTAP2 level: authenticator with hmac-secret (non-UV secret, evaluation at creation), seeded
+    /// credentials carry both secrets, and the request asks for hmac-secret / a PRF evaluation
+    #[serde(default)]
+    pub ext: bool,
 }
 
 fn cap_of(c: u8) -> Option<bool> {
@@ -78,7 +82,9 @@ pub fn cases() -> Vec<Case> {
                     for outcome in 0..7u8 {
                         for pin in [false, true] {
                             for arc_mutex in [false, true] {
-                                v.push(Case { op, rk: bits & 4 != 0, up: bits & 2 != 0, uv: bits & 1 != 0, cap, presence_cap, outcome, pin, arc_mutex, level: 0, uvreq: 0 });
+                                for ext in [false, true] {
+                                    v.push(Case { op, rk: bits & 4 != 0, up: bits & 2 != 0, uv: bits & 1 != 0, cap, presence_cap, outcome, pin, arc_mutex, level: 0, uvreq: 0, ext });
+                                }
                             }
                         }
                     }
@@ -88,7 +94,7 @@ pub fn cases() -> Vec<Case> {
         for uvreq in 0..4u8 {
             for cap in 0..3u8 {
                 for outcome in 0..7u8 {
-                    v.push(Case { op, rk: false, up: true, uv: false, cap, presence_cap: true, outcome, pin: false, arc_mutex: false, level: 1, uvreq });
+                    v.push(Case { op, rk: false, up: true, uv: false, cap, presence_cap: true, outcome, pin: false, arc_mutex: false, level: 1, uvreq, ext: false });
                 }
             }
         }
@@ -100,10 +106,14 @@ const RP: &str = "example.com";
 const OTHER: &str = "other.org";
 
 fn store_for(op: Op, content: Content) -> (RefStore, Option<Vec<Vec<u8>>>) {
-    let own = seeded(&Seed { n: 1, rp: RP.into(), handle: Some(vec![1, 2, 3]), counter: Some(5), hmac: None });
-    let other = seeded(&Seed { n: 2, rp: OTHER.into(), handle: Some(vec![1, 2, 3]), counter: Some(5), hmac: None });
+    store_for_ext(op, content, false)
+}
+fn store_for_ext(op: Op, content: Content, ext: bool) -> (RefStore, Option<Vec<Vec<u8>>>) {
+    let hmac = ext.then_some(true);
+    let own = seeded(&Seed { n: 1, rp: RP.into(), handle: Some(vec![1, 2, 3]), counter: Some(5), hmac });
+    let other = seeded(&Seed { n: 2, rp: OTHER.into(), handle: Some(vec![1, 2, 3]), counter: Some(5), hmac });
     let _ = op;
-    let own2 = seeded(&Seed { n: 3, rp: RP.into(), handle: Some(vec![4, 5]), counter: Some(9), hmac: None });
+    let own2 = seeded(&Seed { n: 3, rp: RP.into(), handle: Some(vec![4, 5]), counter: Some(9), hmac });
     match content {
         Content::TwoViaList => (RefStore::with(vec![own.clone(), other.clone(), own2.clone()]), Some(vec![cred_id(1), cred_id(3)])),
         Content::TwoNoList => (RefStore::with(vec![own.clone(), other.clone(), own2.clone()]), None),
@@ -129,17 +139,24 @@ where
 {
     let uv = ScriptedUv { verification_cap: cap_of(c.cap), presence_cap: c.presence_cap, outcome: outcome_of(c.outcome), yields: 0, log };
     let mut auth = Authenticator::new(Aaguid::new_empty(), store, uv);
+    if c.ext {
+        auth = auth.hmac_secret(passkey_authenticator::extensions::HmacSecretConfig::new_without_uv().enable_on_make_credential());
+    }
     auth.set_make_credentials_with_signature_counter(true);
+    use passkey_types::ctap2::extensions::{AuthenticatorPrfInputs, AuthenticatorPrfValues};
+    let prf = || AuthenticatorPrfInputs { eval: Some(AuthenticatorPrfValues { first: [3; 32], second: None }), eval_by_credential: None };
     let result = match c.op {
         Op::Make => {
-            let req = mc_request(RP, &[9, 9], list, c.rk, c.up, c.uv, c.pin, None);
+            let ext = c.ext.then(|| passkey_types::ctap2::make_credential::ExtensionInputs { hmac_secret: Some(true), hmac_secret_mc: None, prf: Some(prf()) });
+            let req = mc_request(RP, &[9, 9], list, c.rk, c.up, c.uv, c.pin, ext);
             block_on(auth.make_credential(req)).map(|r| {
                 let fl: u8 = r.auth_data.flags.into();
                 (fl, r.auth_data.attested_credential_data.as_ref().map(|a| a.credential_id().to_vec()).unwrap_or_default())
             })
         }
         Op::Get => {
-            let req = ga_request(RP, list, c.rk, c.up, c.uv, c.pin, None);
+            let ext = c.ext.then(|| passkey_types::ctap2::get_assertion::ExtensionInputs { hmac_secret: None, prf: Some(prf()) });
+            let req = ga_request(RP, list, c.rk, c.up, c.uv, c.pin, ext);
             block_on(auth.get_assertion(req)).map(|r| {
                 let fl: u8 = r.auth_data.flags.into();
                 (fl, r.credential.map(|d| d.id.to_vec()).unwrap_or_default())
@@ -150,7 +167,7 @@ where
 }
 
 fn observe(c: &Case, content: Content) -> Obs {
-    let (mut store, list) = store_for(c.op, content);
+    let (mut store, list) = store_for_ext(c.op, content, c.ext);
     // half of the configurations run on a store that reports "nothing found" as Ok(empty list)
     store.empty_ok = !c.presence_cap;
     let before = store.recs();
@@ -449,7 +466,7 @@ pub fn eval_pair(p: &Pair) -> (Vec<Finding>, String) {
             Op::Get => block_on(auth.get_assertion(ga_request(RP, None, false, true, uvreq, false, None))).map(|r| u8::from(r.auth_data.flags)).map_err(sc_byte),
         });
         let after = shared.recs();
-        let c = Case { op, rk: false, up: true, uv: uvreq, cap: 2, presence_cap: true, outcome, pin: false, arc_mutex: false, level: 0, uvreq: 0 };
+        let c = Case { op, rk: false, up: true, uv: uvreq, cap: 2, presence_cap: true, outcome, pin: false, arc_mutex: false, level: 0, uvreq: 0, ext: false };
         let ok = consent_ok(&c, true, uvreq);
         let checked = log.snapshot().iter().any(|e| matches!(e, Event::CheckUser { .. }));
         match r {
